@@ -55,6 +55,13 @@ def _long_elbows(rng, count):
             a, b = rng.choice([(rng.randint(3, 45), rng.randint(300, 520)), (rng.randint(300, 520), rng.randint(3, 45)),
                                (rng.randint(200, 300), rng.randint(200, 300))])
         dxs = [rng.randint(1, 4) for _ in range(a + b)]
+        if k % 5 == 1:       # a short arm whose first step from the corner is the widest (midpoints in x and in index differ)
+            if rng.random() < 0.7:
+                a, b = rng.randint(9, 30), rng.randint(3, 5)
+                dxs = [rng.randint(1, 2) for _ in range(a)] + [rng.choice([3, 4])] + [1] * (b - 1)
+            else:
+                a, b = rng.randint(3, 5), rng.randint(9, 30)
+                dxs = [1] * (a - 1) + [rng.choice([3, 4])] + [rng.randint(1, 2) for _ in range(b)]
         s1, s2 = rng.sample(range(-64, 65), 2)
         if k % 7 == 3:
             s1, s2 = rng.choice([(0, s2 or 5), (s1 or -7, 0)])      # one flat arm
